@@ -251,6 +251,7 @@ func run(c *hx.Ctx) error {
 	}
 
 	// known findings: replay the exact minimal input on the real code
+	activeClasses := map[string]bool{}
 	for _, f := range c.Findings {
 		if !strings.HasPrefix(f.Minimal, "build ") {
 			return fmt.Errorf("known finding %s: minimal must start with `build `", f.ID)
@@ -261,6 +262,22 @@ func run(c *hx.Ctx) error {
 		}
 		br := buildOne(b)
 		if cl, want := verdict(b, br, true); cl != "" {
+			isClass := false
+			for _, fc := range findingClasses {
+				if fc.id == f.ID {
+					isClass = true
+					// a class is active only while its recorded witness fails and falls into the class itself
+					if cl2, _ := verdict(b, br, false); cl2 == "" || !fc.explain(b, br, cl2) {
+						res.Notes = append(res.Notes, fmt.Sprintf("class %s: the recorded witness is not explained by the class any more — class inactive", f.ID))
+						cl = ""
+					} else {
+						activeClasses[f.ID] = true
+					}
+				}
+			}
+			if cl == "" && isClass {
+				continue
+			}
 			res.AddBreak(proto.Break{Kind: "property", Name: cl, Case: "C21 " + f.Minimal, Human: humanBuild(b),
 				Impl: fmt.Sprintf("%s:%d:%d (start %d, end %d): %s", br.Path, br.Line, br.Col, br.Start, br.End, br.Msg), Model: want, Finding: f.ID})
 		}
@@ -284,9 +301,13 @@ func run(c *hx.Ctx) error {
 			br := buildOne(b)
 			res.Count(b.Key(), true)
 			if cl, want := verdict(b, br, false); cl != "" {
+				fid := knownFor(strings.TrimPrefix(rp.Case, "C21 "))
+				if fid == "" {
+					fid = classOf(activeClasses, b, br, cl)
+				}
 				res.AddBreak(proto.Break{Kind: "property", Name: cl, Case: rp.Case, Human: humanBuild(b),
 					Impl: fmt.Sprintf("%s:%d:%d (start %d, end %d): %s", br.Path, br.Line, br.Col, br.Start, br.End, br.Msg), Model: want,
-					Finding: knownFor(strings.TrimPrefix(rp.Case, "C21 "))})
+					Finding: fid})
 			}
 			return nil
 		}
@@ -370,11 +391,25 @@ func run(c *hx.Ctx) error {
 	}
 	// every statement and declaration form x modifiers x file roles (lexh.Forms, shared with C04): the build errors
 	// of files that extend, import and render other files, of macro bodies with a format, of imported packages
+	fr := proto.NewRand(r.U64())
 	for _, fc := range lexh.Forms(proto.NewRand(r.U64()), c.Quick(), c.N(3000, 60000)) {
+		// quick: one in two of the cases with more than one file (where path, offset and line:column can disagree), one in six of the rest
+		if c.Quick() && (len(fc.BuildCase.Files) < 2 && fr.Intn(6) != 0 || len(fc.BuildCase.Files) >= 2 && fr.Intn(2) != 0) {
+			continue
+		}
 		builds = append(builds, fc.BuildCase)
 		origin[fc.BuildCase.Line()] = fmt.Sprintf("forms stream: form=%s mod=%s role=%s", fc.Form, fc.Mod, fc.Role)
 		res.Hist("forms-stream")
 		res.Hist("forms-stream/role-" + fc.Role)
+	}
+	// the precision self-test of the finding classes: inputs drawn around each class's cause; they go through the
+	// oracle like every other input
+	probes := classProbes()
+	probeAt := map[int]classProbe{}
+	for _, pr := range probes {
+		probeAt[len(builds)] = pr
+		builds = append(builds, pr.b)
+		res.Hist("class-probes")
 	}
 	for i := 0; i < c.N(2500, 30000); i++ {
 		t := corpus.Trees[r.Intn(len(corpus.Trees))]
@@ -419,16 +454,26 @@ func run(c *hx.Ctx) error {
 			}
 		}
 		clause, _ := verdict(b, br, false)
+		if pr, ok := probeAt[i]; ok && activeClasses[pr.class] && pr.predicted {
+			res.Hist("class-precision/" + pr.class + "/predicted")
+			if clause != "" && classOf(activeClasses, b, br, clause) == pr.class {
+				res.Hist("class-precision/" + pr.class + "/fail-as-predicted")
+			} else if os.Getenv("VERIF_C21_STRICT") != "" {
+				res.AddBreak(proto.Break{Kind: "correspondence", Name: "finding-class-too-broad: " + pr.class, Case: "C21 build " + b.Line(), Human: humanBuild(b),
+					Impl: fmt.Sprintf("%s %s:%d:%d (start %d): %s; clause %q", br.Status, br.Path, br.Line, br.Col, br.Start, br.Msg, clause), Model: "fails and is explained by the class"})
+			}
+		}
 		if clause == "" {
 			continue
 		}
-		sig := clause + "|" + class(br.Msg)
+		cls := classOf(activeClasses, b, br, clause)
+		sig := clause + "|" + class(br.Msg) + "|" + cls
 		if shrunk[sig] {
 			continue
 		}
 		shrunk[sig] = true
 		min := b
-		if len(shrunk) <= 14 {
+		if len(shrunk) <= 14 && cls == "" { // an input an active class explains is reported as it is
 			for _, n := range sortedNames(b.Files) {
 				n := n
 				md := lexh.Shrink(min.Files[n], func(x []byte) bool {
@@ -439,7 +484,7 @@ func run(c *hx.Ctx) error {
 					bb.Files[n] = x
 					r2 := buildOne(bb)
 					cl, _ := verdict(bb, r2, false)
-					return cl == clause && class(r2.Msg) == class(br.Msg)
+					return cl == clause && class(r2.Msg) == class(br.Msg) && classOf(activeClasses, bb, r2, cl) == cls
 				}, 6000)
 				nf := map[string][]byte{}
 				for k, v := range min.Files {
@@ -451,12 +496,25 @@ func run(c *hx.Ctx) error {
 			br = buildOne(min)
 		}
 		_, want := verdict(min, br, false)
+		fid := knownFor("build " + min.Line())
+		if fid == "" {
+			fid = cls
+		}
 		if o := origin[b.Line()]; o != "" {
 			res.Notes = append(res.Notes, fmt.Sprintf("%s: first failing input (before shrinking) from %s", clause, o))
 		}
 		res.AddBreak(proto.Break{Kind: "property", Name: clause, Case: "C21 build " + min.Line(), Human: humanBuild(min),
 			Impl: fmt.Sprintf("%s:%d:%d (start %d, end %d): %s", br.Path, br.Line, br.Col, br.Start, br.End, br.Msg), Model: want,
-			Finding: knownFor("build " + min.Line())})
+			Finding: fid})
+	}
+	for _, fc := range findingClasses {
+		if n := res.Histogram["class-precision/"+fc.id+"/predicted"]; n > 0 {
+			ok := res.Histogram["class-precision/"+fc.id+"/fail-as-predicted"]
+			res.Histogram["class-precision/"+fc.id+"/permille"] = 1000 * ok / n
+			if 100*ok < 95*n {
+				res.Notes = append(res.Notes, fmt.Sprintf("class %s: precision %d ‰ — attribution by this class is unreliable on this tree", fc.id, 1000*ok/n))
+			}
+		}
 	}
 	res.Notes = append(res.Notes, fmt.Sprintf("oracle+shrink: %v", time.Since(t0).Round(time.Millisecond)))
 
